@@ -663,8 +663,11 @@ func (s *Sim) taskPanicked(t *coro.Task) {
 		}
 		// the start-up of a replica is over when its initial recovery (from the
 		// recorded snapshot and the log) has completed
+		// (only the tasks that carry out the start-up count: the boot task and
+		// the snapshot worker job that runs the initial recovery; a chunk or a
+		// message that happens to arrive meanwhile is not part of it)
 		starting := t.Name == "boot"
-		if !starting && h.nh != nil {
+		if !starting && h.nh != nil && t.Name == "ss.job" {
 			if r, ok := h.nh.VerifGetReplica(shardID); ok && !r.Initialized() {
 				starting = true
 			}
